@@ -189,6 +189,37 @@ def ValidHist (fx : Fix) : Map Nat → List Ev → Prop
   | _, [] => True
   | m, ev :: evs => ValidEv fx m ev ∧ ValidHist fx (stepValues m ev) evs
 
+/-! ### publisher (core/discov/publisher.go) and etcd's lease store -/
+
+/-- the id suffix of the full key, `register`:
+`if p.id > 0 { p.fullKey = makeEtcdKey(p.key, p.id) } else { p.fullKey = makeEtcdKey(p.key, int64(lease)) }` -/
+def pubKeyId (id lease : Nat) : Nat := if id > 0 then id else lease
+
+structure Pub where
+  id      : Nat            -- `WithId` (0: none)
+  value   : Nat
+  lease   : Nat := 0       -- p.lease (0 = clientv3.NoLease)
+  fullKey : Nat := 0       -- the id suffix of p.fullKey
+  deriving Repr, DecidableEq
+
+/-- etcd under the service key: id suffix of the full key ↦ (value, lease) -/
+abbrev Store := Map (Nat × Nat)
+
+/-- `register` (the lease is what etcd's Grant returned): `Put(p.fullKey, p.value, WithLease(lease))`, `p.lease = lease` -/
+def Pub.register (p : Pub) (lease : Nat) : Pub := { p with lease := lease, fullKey := pubKeyId p.id lease }
+
+def storePut (s : Store) (p : Pub) : Store := s.set p.fullKey (p.value, p.lease)
+
+/-- `revoke`: `Revoke(p.lease)` — etcd deletes every key attached to the lease -/
+def storeRevoke (s : Store) (lease : Nat) : Store := s.filter (fun e => e.2.2 ≠ lease)
+
+/-- the keys etcd deletes (a DELETE watch event each) -/
+def revokedKeys (s : Store) (lease : Nat) : List Nat := (s.filter (fun e => e.2.2 = lease)).map (·.1)
+
+/-- what the watchers of the service key are told -/
+def registerEvents (p : Pub) : List Ev := [.put p.fullKey p.value]
+def revokeEvents (s : Store) (lease : Nat) : List Ev := (revokedKeys s lease).map .del
+
 /-! ### resolver (zrpc/resolver/internal: discovbuilder.go update(), subset.go) -/
 
 def subsetSize : Nat := 32
